@@ -63,12 +63,22 @@ const SETTINGS: [&str; 4] = [
     "[config]\nempty_if = { comments_count = true }\nunused_variable = { ignore_pattern = \"^v[02]$\" }\n",
 ];
 
-fn checker(cfg: &[(String, LintVariation)], settings: &str) -> Checker<toml::value::Value> {
+/// programs for the lints that only run under a Roblox library
+const ROBLOX_SOURCES: [&str; 6] = [
+    "local c = Color3.new(255, 128, 0)\nprint(c)\n",
+    "local u = UDim2.new(1, 0, 1, 0)\nprint(u, Color3.new(2, 0, 0))\n",
+    "-- selene: allow(roblox_incorrect_color3_new_bounds)\nlocal c = Color3.new(255, 0, 0)\nlocal d = Color3.new(0, 255, 0)\nprint(c, d)\n",
+    "local Roact = require(script.Roact)\nprint(Roact.createElement(\"Frame\", { ThisPropertyDoesNotExist = true }))\nprint(Color3.new(3, 3, 3))\n",
+    "local function clone(t)\n  local r = {}\n  for k, v in pairs(t) do\n    r[k] = v\n  end\n  return r\nend\nprint(clone, UDim2.new(0.5, 0, 0.5, 0))\n",
+    "-- selene: deny(roblox_suspicious_udim2_new)\nprint(UDim2.new(1, 1))\nprint(Color3.new(-1, 0, 0), UDim2.new(0, 5, 0, 5))\n",
+];
+
+fn checker(cfg: &[(String, LintVariation)], settings: &str, roblox: bool) -> Checker<toml::value::Value> {
     let mut c: CheckerConfig<toml::value::Value> = toml::from_str(settings).unwrap();
     for (k, v) in cfg {
         c.lints.insert(k.clone(), *v);
     }
-    Checker::new(c, StandardLibrary::from_name("lua51").unwrap()).unwrap()
+    Checker::new(c, if roblox { StandardLibrary::roblox_base() } else { StandardLibrary::from_name("lua51").unwrap() }).unwrap()
 }
 
 pub fn generate(seed: u64, n: usize, _thorough: bool) -> Cases {
@@ -76,10 +86,15 @@ pub fn generate(seed: u64, n: usize, _thorough: bool) -> Cases {
     let mut rng = Rng::new(seed);
     let names = lint_names();
     let fx = fixtures();
-    let bases: Vec<Checker<toml::value::Value>> = SETTINGS.iter().map(|t| checker(&[], t)).collect();
+    let bases: Vec<Checker<toml::value::Value>> = SETTINGS.iter().map(|t| checker(&[], t, false)).collect();
+    let roblox_bases: Vec<Checker<toml::value::Value>> = SETTINGS.iter().map(|t| checker(&[], t, true)).collect();
     for i in 0..n {
         let mut r = rng.fork(i as u64);
-        let (src, shapes, nf) = if r.chance(1, 4) && !fx.is_empty() {
+        let roblox = r.chance(1, 6);
+        let (src, shapes, nf) = if roblox {
+            let s = *r.pick(&ROBLOX_SOURCES);
+            (s.to_string(), vec!["roblox-library"], s.matches("selene:").count())
+        } else if r.chance(1, 4) && !fx.is_empty() {
             (fx[r.below(fx.len())].clone(), vec!["fixture"], 0)
         } else {
             let p = gen_filter_program(&mut r);
@@ -113,8 +128,8 @@ pub fn generate(seed: u64, n: usize, _thorough: bool) -> Cases {
             }
         }
         let which = if r.chance(1, 2) { 0 } else { r.below(SETTINGS.len()) };
-        let base = &bases[which];
-        let ck = checker(&cfg, SETTINGS[which]);
+        let base = if roblox { &roblox_bases[which] } else { &bases[which] };
+        let ck = checker(&cfg, SETTINGS[which], roblox);
         let raw = match catch_unwind(AssertUnwindSafe(|| base.test_on(&ast2))) { Ok(v) => v, Err(_) => continue };
         let imp = match catch_unwind(AssertUnwindSafe(|| ck.test_on(&ast))) { Ok(v) => v, Err(_) => continue };
         let imp_plain = match catch_unwind(AssertUnwindSafe(|| ck.test_on(&ast2))) { Ok(v) => v, Err(_) => continue };
@@ -148,7 +163,7 @@ pub fn generate(seed: u64, n: usize, _thorough: bool) -> Cases {
         cases.push(
             format!("CCfg {} {} {} {} {} {}", cfg_term, events_term(&ast), gopt(crate::c08::first_code_of(&ast), grange), found_term, term_of(&imp), term_of(&imp_plain)),
             json!({"kind": if nf > 0 { "with-filters" } else { "plain" }, "source": src, "shapes": shapes,
-                   "config": cfg.iter().map(|(k, v)| format!("{k}={v:?}")).collect::<Vec<_>>(), "config_mode": mode, "settings": SETTINGS[which],
+                   "config": cfg.iter().map(|(k, v)| format!("{k}={v:?}")).collect::<Vec<_>>(), "config_mode": mode, "settings": SETTINGS[which], "library": if roblox { "roblox" } else { "lua51" },
                    "found": raw.len(), "visible": imp.iter().filter(|d| d.severity != selene_lib::lints::Severity::Allow).count(),
                    "nontrivial": !raw.is_empty()}),
         );
